@@ -27,6 +27,8 @@ type recovered struct {
 	N     int               `json:"n"`
 	Err   string            `json:"err,omitempty"`
 	Err2  string            `json:"err2,omitempty"` // the recovered directory did not survive a write + second restart
+	Err3  string            `json:"err3,omitempty"` // ... or a second epoch of shrinking writes + snapshots + restart
+	Epoch bool              `json:"epoch,omitempty"` // the second epoch was run on this image
 	Stack string            `json:"stack,omitempty"`
 	Units map[string]string `json:"units,omitempty"`
 	Left  []string          `json:"left,omitempty"` // leftover temporary files present in the image
@@ -165,6 +167,132 @@ func openImage(dir string) (units map[string]string, err error, err2 error) {
 	return units, nil, nil
 }
 
+// secondEpoch continues the history on a directory that has been recovered (and
+// probed) once: every fragment is SHRUNK - emptied through the op log, then snapshotted
+// exactly once by a fragment.clearRow (which replaces the data file by a snapshot before
+// it returns) - then one bit (row 8) is set in it, the int field gets one new large value (its bit depth
+// grows: the field meta is rewritten through <field>.temp), one more key is allocated,
+// the holder is closed, and the next start must succeed and read exactly that: every
+// acknowledged write of this epoch, nothing else. A file left by a snapshot or meta
+// rewrite that the kill interrupted in the FIRST epoch (.snapshotting, .temp) is still
+// lying around when the second epoch writes its own, smaller ones: whatever it contains
+// must not reach the recovered state (DurabilityAbs: Recover never reads `garbage`).
+func secondEpoch(dir string) error {
+	h, tf, err := openHolder(dir)
+	if err != nil {
+		return fmt.Errorf("restart before the second epoch: %v", err)
+	}
+	closed := false
+	defer func() {
+		if !closed {
+			_ = h.Close()
+		}
+	}()
+	s0, err := project(h, tf)
+	if err != nil {
+		return err
+	}
+	const epochRow = 8
+	want := map[string]uint64{} // fragment -> the only position it may hold afterwards
+	vshards := map[uint64]bool{}
+	for k, vals := range pilosa.VerifDurFragments(h) {
+		parts := strings.Split(k, "/")
+		var shard uint64
+		fmt.Sscanf(parts[3], "%d", &shard)
+		// empty the fragment through the op log (one remove-batch entry) ...
+		var rws, cls []uint64
+		for _, p := range vals {
+			rws = append(rws, p/sw)
+			cls = append(cls, shard*sw+p%sw)
+		}
+		if len(vals) > 0 {
+			if e := pilosa.VerifDurClearBits(h, parts[0], parts[1], parts[2], shard, rws, cls); e != nil {
+				return fmt.Errorf("second epoch: clearing %s: %v", k, e)
+			}
+		}
+		// ... then exactly ONE snapshot of the now empty (smallest possible) bitmap: it is
+		// written to <fragment>.snapshotting, where a file of the first epoch may still lie
+		if _, e := pilosa.VerifDurClearRow(h, parts[0], parts[1], parts[2], shard, epochRow); e != nil {
+			return fmt.Errorf("second epoch: ClearRow(%d) on %s: %v", epochRow, k, e)
+		}
+		if parts[1] == "v" {
+			vshards[shard] = true
+			continue
+		}
+		pos := uint64(epochRow)*sw + probeColOff
+		if _, e := pilosa.VerifDurSetBit(h, parts[0], parts[1], parts[2], shard, epochRow, shard*sw+probeColOff); e != nil {
+			return fmt.Errorf("second epoch: write to %s: %v", k, e)
+		}
+		want[k] = pos
+	}
+	fv := h.Field(idxI, "v")
+	for shard := range vshards {
+		if _, e := fv.SetValue(shard*sw+probeColOff+1, 900); e != nil {
+			return fmt.Errorf("second epoch: SetValue in shard %d: %v", shard, e)
+		}
+	}
+	ids, e := tf.TranslateColumnsToUint64(idxK, []string{"key-probe2"})
+	if e != nil {
+		return fmt.Errorf("second epoch: key allocation: %v", e)
+	}
+	closed = true
+	if e := h.Close(); e != nil {
+		return fmt.Errorf("second epoch: closing: %v", e)
+	}
+
+	h3, tf3, e := openHolder(dir)
+	if e != nil {
+		return fmt.Errorf("restart after the second epoch (every fragment shrunk and snapshotted): %v", e)
+	}
+	defer h3.Close()
+	raw := pilosa.VerifDurFragments(h3)
+	for k, pos := range want {
+		got := raw[k]
+		if len(got) != 1 || got[0] != pos {
+			return fmt.Errorf("after the second epoch fragment %s holds positions %v, written: only %d", k, trunc(got, 12), pos)
+		}
+	}
+	fv3 := h3.Field(idxI, "v")
+	for shard := range vshards {
+		if v, ok, e := fv3.Value(shard*sw + probeColOff + 1); e != nil || !ok || v != 900 {
+			return fmt.Errorf("after the second epoch the value 900 written in shard %d reads as %d (exists=%v, err=%v)", shard, v, ok, e)
+		}
+		for _, c := range absCols {
+			if col(c)/sw != shard {
+				continue
+			}
+			if v, ok, _ := fv3.Value(col(c)); ok {
+				return fmt.Errorf("after the second epoch column %d of the int field reads %d although its value was cleared", c, v)
+			}
+		}
+	}
+	s3, e := project(h3, tf3)
+	if e != nil {
+		return fmt.Errorf("after the second epoch: %v", e)
+	}
+	if k, _ := tf3.TranslateColumnToString(idxK, ids[0]); k != "key-probe2" {
+		return fmt.Errorf("after the second epoch the key allocated in it (id %d) reads as %q", ids[0], k)
+	}
+	for id, k := range s0.ColKeys {
+		if s3.ColKeys[id] != k {
+			return fmt.Errorf("after the second epoch column key id %s reads %q, was %q", id, s3.ColKeys[id], k)
+		}
+	}
+	for id, k := range s0.RowKeys {
+		if s3.RowKeys[id] != k {
+			return fmt.Errorf("after the second epoch row key id %s reads %q, was %q", id, s3.RowKeys[id], k)
+		}
+	}
+	return nil
+}
+
+func trunc(a []uint64, n int) []uint64 {
+	if len(a) > n {
+		return a[:n]
+	}
+	return a
+}
+
 // TestC09Recover is the fresh process that opens every crash image below
 // $VERIF_C09_IMAGES/img and writes what it recovered to recovered.json.
 func TestC09Recover(t *testing.T) {
@@ -175,10 +303,16 @@ func TestC09Recover(t *testing.T) {
 	var pts pointsFile
 	mustReadJSON(t, filepath.Join(out, "points.json"), &pts)
 	recs := make([]recovered, len(pts.Points))
+	hidx := os.Getenv("VERIF_C09_HIDX")
+	every := behav.EnvInt("VERIF_C09_EPOCH_EVERY", 4)
 	behav.Parallel(len(pts.Points), func(i int) {
 		p := pts.Points[i]
 		dir := filepath.Join(out, "img", strconv.Itoa(p.N))
 		r := recovered{N: p.N, Left: leftovers(dir)}
+		// the second epoch runs on every image that holds a leftover temporary file and
+		// on a seeded sample of the others
+		r.Epoch = len(r.Left) > 0 || every <= 1 ||
+			behav.Hash64(fmt.Sprintf("%d/%s/%d", behav.Seed(), hidx, p.N))%uint64(every) == 0
 		pv, stack := behav.Protect(func() {
 			u, err, err2 := openImage(dir)
 			if err != nil {
@@ -188,6 +322,11 @@ func TestC09Recover(t *testing.T) {
 				r.Err2 = err2.Error()
 			}
 			r.Units = u
+			if err == nil && err2 == nil && r.Epoch {
+				if err3 := secondEpoch(dir); err3 != nil {
+					r.Err3 = err3.Error()
+				}
+			}
 		})
 		if pv != nil {
 			r.Err = fmt.Sprintf("panic: %v", pv)
@@ -325,10 +464,11 @@ func toolsDir() string {
 type c09Case struct {
 	Beh   behav.Behaviour   `json:"beh"`
 	Match map[string]string `json:"match,omitempty"`
+	Hidx  int               `json:"hidx"` // index of the history in its run (seeds the second-epoch sample)
 }
 
 type histOutcome struct {
-	images, obligations, nontrivial int
+	images, obligations, nontrivial, epochs, epochsLeft int
 	failures                        []behav.Failure
 	drift                           []string
 	events                          []map[string]interface{}
@@ -476,6 +616,18 @@ func judge(beh behav.Behaviour, S []map[string]string, p point, ob [2]int, rec r
 		return false, map[string]string{"op": op, "field": "", "crash_after": p.After, "symptom": "broken_after_restart"},
 			fmt.Sprintf("the first restart succeeded, but %s", rec.Err2)
 	}
+	if rec.Err3 != "" {
+		op := opKind(inflight)
+		if inflight == 0 {
+			op = opKind(acked)
+		}
+		sym := "broken_after_restart"
+		if len(rec.Left) > 0 {
+			sym = "leftover_affects_state"
+		}
+		return false, map[string]string{"op": op, "field": "", "crash_after": p.After, "symptom": sym},
+			fmt.Sprintf("the first restart succeeded, but %s", rec.Err3)
+	}
 	a := S[acked]
 	b := a
 	if inflight > 0 && inflight < len(S) {
@@ -557,7 +709,7 @@ func straceCmd() []string {
 
 // runHistory executes one history under strace, rebuilds every crash image, opens each in
 // a fresh process and judges it.
-func runHistory(work, base string, beh behav.Behaviour, keepEvents bool) (*histOutcome, error) {
+func runHistory(work, base string, beh behav.Behaviour, keepEvents bool, hidx int) (*histOutcome, error) {
 	out := &histOutcome{}
 	if err := os.MkdirAll(work, 0o777); err != nil {
 		return nil, err
@@ -609,7 +761,7 @@ func runHistory(work, base string, beh behav.Behaviour, keepEvents bool) (*histO
 		return nil, fmt.Errorf("strace2fs: %v\n%s", err, tail(string(b), 2000))
 	}
 	rc := exec.Command(os.Args[0], "-test.run", "^TestC09Recover$", "-test.count", "1")
-	rc.Env = append(os.Environ(), "VERIF_C09_IMAGES="+imgs, "VERIF_WORKERS=2")
+	rc.Env = append(os.Environ(), "VERIF_C09_IMAGES="+imgs, "VERIF_WORKERS=2", fmt.Sprintf("VERIF_C09_HIDX=%d", hidx))
 	if b, err := rc.CombinedOutput(); err != nil {
 		return nil, fmt.Errorf("recovery process: %v\n%s", err, tail(string(b), 3000))
 	}
@@ -634,6 +786,12 @@ func runHistory(work, base string, beh behav.Behaviour, keepEvents bool) (*histO
 	for i, p := range pts.Points {
 		rec := recs[i]
 		out.images++
+		if rec.Epoch {
+			out.epochs++
+			if len(rec.Left) > 0 {
+				out.epochsLeft++
+			}
+		}
 		nt := len(rec.Left) > 0
 		for _, ob := range p.Obligations {
 			out.obligations++
@@ -651,7 +809,7 @@ func runHistory(work, base string, beh behav.Behaviour, keepEvents bool) (*histO
 				Match: match,
 				Detail: fmt.Sprintf("history %s\ncrash point %d (after %s on %s, #%d within step %d %s), %d steps acknowledged, step in flight: %d\n%s\nleftover files: %v",
 					histString(beh), p.N, p.After, p.Unit, p.Nth, p.InflightAt, p.Op, ob[0], ob[1], detail, rec.Left),
-				Replay: c09Case{Beh: beh, Match: match},
+				Replay: c09Case{Beh: beh, Match: match, Hidx: hidx},
 			})
 			break
 		}
@@ -732,7 +890,7 @@ func TestC09(t *testing.T) {
 			t.Fatal(err)
 		}
 		res.Evaluations = 1
-		o, err := runHistory(filepath.Join(root, "h0"), base, c.Beh, false)
+		o, err := runHistory(filepath.Join(root, "h0"), base, c.Beh, false, c.Hidx)
 		if err != nil {
 			res.SetInconclusive("replay: " + err.Error())
 			return
@@ -751,7 +909,7 @@ func TestC09(t *testing.T) {
 	var driftSamples, apiErrs []string
 	var distinct behav.Distinct
 	behav.Parallel(len(behs), func(i int) {
-		o, err := runHistory(filepath.Join(root, fmt.Sprintf("h%d", i)), base, behs[i], traceOut != "")
+		o, err := runHistory(filepath.Join(root, fmt.Sprintf("h%d", i)), base, behs[i], traceOut != "", i)
 		if err != nil {
 			res.SetInconclusive(fmt.Sprintf("history %d (%s): %v", i, histString(behs[i]), err))
 			return
@@ -773,6 +931,8 @@ func TestC09(t *testing.T) {
 		mu.Lock()
 		defer mu.Unlock()
 		res.Coverage["obligations"] = toInt64(res.Coverage["obligations"]) + int64(o.obligations)
+		res.Coverage["second_epochs"] = toInt64(res.Coverage["second_epochs"]) + int64(o.epochs)
+		res.Coverage["second_epochs_on_images_with_leftovers"] = toInt64(res.Coverage["second_epochs_on_images_with_leftovers"]) + int64(o.epochsLeft)
 		if len(o.drift) > 0 {
 			res.Coverage["histories_with_semantic_drift"] = toInt64(res.Coverage["histories_with_semantic_drift"]) + 1
 			if len(driftSamples) < 5 {
